@@ -86,8 +86,43 @@ def detect(sid, checks):
     json.dump(out, open(f"{SEEDED}/{sid}/detect.json", "w"), indent=1)
 
 
+MISSED_FIRST = {"C01_s1": "C01 (no threaded / chunked draws) -> strategy draws (R/T) added to C01's covering draws",
+                "C01_s3": "C01 (no threaded / chunked draws) -> strategy draws (R/T) added to C01's covering draws",
+                "C07_s2": "C07 (a null that lost its validity bit decodes as NaT) -> polars / arrow outputs: NaT bit pattern with the validity bit set is junk",
+                "C08_s1": "C08 (groups of <= 60 rows) -> groups of 129..300 (thorough: 66000) rows with categorical keys and 8-bit values",
+                "C11_s1": "C11 (names were non-empty strings or None) -> falsy names (0) in Series / list / dict / frame inputs",
+                "C11_s2": "C11 (order checked on contiguous keys) -> chunk-wise factorized keys whose blocks repeat the same non-ascending order, empty blocks",
+                "C13_s1": "C13 (float values only) -> reductions draw int32 / uint8 / bool / int64 / float32 values",
+                "C13_s2": "C13 (no slice masks) -> reductions draw slice and (sorted) positional masks",
+                "C16_s1": "C16 (magnitude grid on floats only) -> integer values at 1e9 / 1e10 (this also exposed a genuine defect, fixed in 41680ab)",
+                "C16_s2": "C16 (sorted q lists; values compared without their labels) -> unsorted q lists, entry labelled (group, q_j) compared with np.quantile's j-th entry"}
+
+
+def meta(sids):
+    desc = json.load(open(f"{SEEDED}/descriptions.json"))
+    for sid in sids:
+        d = f"{SEEDED}/{sid}"
+        if not os.path.exists(f"{d}/confirm.json"):
+            continue
+        conf = json.load(open(f"{d}/confirm.json"))
+        det = json.load(open(f"{d}/detect.json")) if os.path.exists(f"{d}/detect.json") else {}
+        m = {"seed": sid, "property": sid.split("_")[0], "needs_to_manifest": desc.get(sid, ""),
+             "origin": "independent sub-agent given only the property text and a scratch worktree",
+             "confirmed_in_scratch_worktree": conf,
+             "what_was_run": "seedtool.py confirm (demo on clean and patched scratch worktree at /repo HEAD, relevant test files compared with the clean tree); "
+                             "seedtool.py detect (patch applied to /repo, quick checks, reverted)",
+             "detected_by": sorted(c for c, r in det.items() if r.get("exit") == 1 and r.get("violations")),
+             "last_detect_run": det}
+        if sid in MISSED_FIRST:
+            m["missed_at_first"] = MISSED_FIRST[sid]
+        json.dump(m, open(f"{d}/meta.json", "w"), indent=1)
+        print(sid, m["detected_by"], "MISSED-FIRST" if sid in MISSED_FIRST else "")
+
+
 if __name__ == "__main__":
-    if sys.argv[1] == "confirm":
+    if sys.argv[1] == "meta":
+        meta(sys.argv[2:] or sorted(x for x in os.listdir(SEEDED) if os.path.isdir(f"{SEEDED}/{x}")))
+    elif sys.argv[1] == "confirm":
         confirm(sys.argv[2], sys.argv[3], sys.argv[4], sys.argv[5:])
     else:
         detect(sys.argv[2], sys.argv[3:])
